@@ -80,6 +80,15 @@ def build(rng: random.Random, kind: str):
     gapped = False
     if kind == "h1":
         axes = [gen.irregular_edges(rng, rng.randint(1, 8))]
+        if rng.random() < 0.2:
+            # widths that agree to five or six digits without being equal (decimal edges cut short, a leap second among days):
+            # "regular" within the library's tolerance, yet their sum is their sum
+            nb_ = rng.randint(2, 7)
+            w_ = rng.choice([0.333333, 86400.0, 1.0])
+            steps_ = [w_] * nb_
+            steps_[rng.randrange(nb_)] = w_ * (1 + rng.choice([3e-6, -3e-6, 1.2e-5 / 1.0]))
+            start_ = rng.choice([0.0, 1.0e9])
+            axes = [[start_ + sum(steps_[:i]) for i in range(nb_ + 1)]]
         cls = Histogram1D
     elif kind == "h1_gapped":
         pairs = gen.gapped_pairs(rng, rng.randint(2, 6))
@@ -130,8 +139,10 @@ def build(rng: random.Random, kind: str):
             ed = [start]
             for i in range(n_):
                 ed.append(ed[-1] + step * (1 + (i % 2)))  # widths alternate: irregular bins
+            if it == "int16" and kind in ("h2", "hnd") and n_ == 2 and rng.random() < 0.5:
+                ed = [-32768, 0, 32767]  # every edge is a number of the type; the width of a bin (and the sum of two edges) is not
             top_ = {"int64": 2**62, "int32": 2**31 - 1, "int16": 2**15 - 1}[it]
-            if ed[-1] > top_ or 2 * ed[-1] <= top_ and it != "int64":
+            if ed[-1] > top_ or 2 * ed[-1] <= top_ and it != "int64" and ed[0] != -32768:
                 continue  # (narrow types: only edges whose sums leave the type are of interest)
             bins[ax] = np.array(ed, dtype=it) if it != "int64" or rng.random() < 0.5 else np.array([int(x) for x in ed])
             if ax == 0 and kind in ("radial", "polar", "spherical", "cylindrical"):
